@@ -21,14 +21,89 @@ Reference semantics (from the property text and Expression.hpp):
 """
 from __future__ import annotations
 
+import copy
 import itertools
+
+# ---------------------------------------------------------------------------
+# WindowedChoose / MalleableChoose (reference semantics)
+#
+# * WindowedChoose(name, parts, n, start, dur, end, gran, u): ONE task that may start at any grid time of its window:
+#   semantically a Max over Choose(name, parts, n, s, dur, u) for s in {multiples of `gran`} with start <= s <= end
+#   (both ends inclusive: `end` is the LATEST START, this is how the constructor records the time bounds
+#   `startTimeRange = {startTime, endTime}` and how schedulers/tetrisched_scheduler.py calls it — the header comment
+#   "finishing before endTime" describes something else); an option before `now` cannot be taken.  `desugar` rewrites
+#   the tree accordingly, every other function of this module then works on plain trees.
+# * MalleableChoose(name, parts, n, start, end, gran, u): `n` resource-time slots spread over the cells
+#   (partition, t) for t = start, start+gran, … < end; a cell holds q <= quantity machines during [t, t+gran); the
+#   task occupies [first used cell, last used cell + gran).  Handled as a leaf of its own (`mchoose`).
+# * shared sub-expressions (one Expression object under two parents) are NOT handled here: every parse() of the C++
+#   returns its cached ParseResult (`if (parsedResult != nullptr) return parsedResult;`), i.e. a shared node is
+#   compiled once and its indicator / utility feed both parents; the check does not generate such DAGs.
+# ---------------------------------------------------------------------------
+
+
+def wchoose_starts(n) -> list[int]:
+    """Reference set of allowed start times of a WindowedChoose (grid times inside the window, ends inclusive)."""
+    g = n["gran"]
+    first = -(-n["start"] // g) * g
+    return list(range(first, n["end"] + 1, g))
+
+
+def wchoose_nodes(tree) -> list[dict]:
+    out = []
+
+    def go(n):
+        if n["t"] == "wchoose":
+            out.append(n)
+        for c in n.get("ch", []):
+            go(c)
+
+    go(tree)
+    return out
+
+
+def has_window(tree) -> bool:
+    """Does the tree use a node kind that only this oracle (not the Lean model) understands?"""
+    def go(n):
+        return n["t"] in ("wchoose", "mchoose") or any(go(c) for c in n.get("ch", []))
+
+    return go(tree)
+
+
+def desugar(case, extra=None) -> dict:
+    """The case with every WindowedChoose rewritten as a Max over its Choose options.  `extra`: name -> start times
+    outside the reference set that must be present as (flagged) options, so that a placement the code made there can
+    still be judged for capacity / structure / utility."""
+    if not wchoose_nodes(case["tree"]):
+        return case
+
+    def go(n):
+        if n["t"] == "wchoose":
+            ref = wchoose_starts(n)
+            opts = [(s, False) for s in ref] + [(s, True) for s in sorted(set((extra or {}).get(n["name"], [])) - set(ref))]
+            return {"t": "max", "name": n["name"] + "#window", "_w": True, "ch": [
+                {"t": "choose", "name": n["name"], "parts": list(n["parts"]), "n": n["n"], "start": s, "dur": n["dur"], "u": n["u"],
+                 "_w": n, "_extra": x} for s, x in sorted(opts)]}
+        if "ch" in n:
+            m = dict(n)
+            m["ch"] = [go(c) for c in n["ch"]]
+            return m
+        return n
+
+    out = dict(case)
+    out["tree"] = go(case["tree"])
+    return out
+
+
+def mslots(n) -> list[int]:
+    return list(range(n["start"], n["end"], n["gran"]))
 
 
 def leaves(tree):
     out = []
 
     def go(n, path):
-        if n["t"] in ("choose", "alloc"):
+        if n["t"] in ("choose", "alloc", "mchoose"):
             out.append((tuple(path), n))
         for i, c in enumerate(n.get("ch", [])):
             go(c, path + [i])
@@ -39,8 +114,11 @@ def leaves(tree):
 
 def horizon(case) -> int:
     h = 1
-    for _, n in leaves(case["tree"]):
-        h = max(h, n["start"] + n["dur"] + 1)
+    for w in wchoose_nodes(case["tree"]):
+        # one grid step beyond the window: the code may start an option there (see `check_result`)
+        h = max(h, w["end"] + w["gran"] + w["dur"] + 1)
+    for _, n in leaves(desugar(case)["tree"]):
+        h = max(h, (n["end"] + n["gran"] if n["t"] == "mchoose" else n["start"] + n["dur"]) + 1)
     return h
 
 
@@ -85,6 +163,10 @@ def evaluate(case, placed: dict) -> Ev:
             return Ev(p, n["u"] if p else 0, n["start"] if p else None, n["start"] + n["dur"] if p else None, 1 if p else 0, [])
         if t == "alloc":
             return Ev(True, 0, n["start"], n["start"] + n["dur"], 0, [])
+        if t == "mchoose":
+            p = path in placed
+            ts = [tm for (_pid, tm) in placed[path]] if p else []
+            return Ev(p, n["u"] if p else 0, min(ts) if p else None, max(ts) + n["gran"] if p else None, 1 if p else 0, [])
         evs = [go(c, path + (i,)) for i, c in enumerate(n["ch"])]
         probs = [p for e in evs for p in e.problems]
         nplaced = sum(e.placed for e in evs)
@@ -135,6 +217,10 @@ def usage_problems(case, placed: dict) -> list[str]:
             for pid, q in n["allocs"]:
                 for t in range(n["start"], n["start"] + n["dur"]):
                     use[(pid, t)] = use.get((pid, t), 0) + q
+        elif path in placed and n["t"] == "mchoose":
+            for (pid, tm), q in placed[path].items():
+                for t in range(tm, tm + n["gran"]):
+                    use[(pid, t)] = use.get((pid, t), 0) + q
         elif path in placed:
             for pid, q in placed[path].items():
                 for t in range(n["start"], n["start"] + n["dur"]):
@@ -154,13 +240,50 @@ def usage_problems(case, placed: dict) -> list[str]:
 def check_result(case, root: dict, objective_value) -> list[str]:
     """Returns the list of violated clauses (empty = fine) for one solution read back
     by the C++ `populateResults` (root = dumped root SolutionResult)."""
+    probs, ties = _judge(case, root, objective_value, {})
+    if probs and wchoose_nodes(case["tree"]) and any(k > 1 for k in ties.values()):
+        # a placement fits several options equally well (an option of a WindowedChoose and a sibling option of the
+        # same Max with the same start, duration and demand): the read-back is valid if ONE reading of it is
+        ks = [k for k, v in ties.items() if v > 1]
+        for n_, combo in enumerate(itertools.product(*[range(ties[k]) for k in ks])):
+            if n_ >= 32 or not probs:
+                break
+            other, _ = _judge(case, root, objective_value, dict(zip(ks, combo)))
+            if len(other) < len(probs):
+                probs = other
+    return probs
+
+
+def _judge(case, root: dict, objective_value, pick: dict):
+    """One reading of the read-back: placement k stands for the pick[k]-th of its equally fitting options."""
     probs = []
+    ties = {}
+    # a WindowedChoose placed at a time outside its reference options: judged as an extra (flagged) option
+    # (`desugar` adds the start to every WindowedChoose of that task name that does not have it; the placement is then
+    # read as the option it fits best, see `_fit`, and `check_result` tries the other equally fitting readings)
+    extra = {}
+    names = {w["name"] for w in wchoose_nodes(case["tree"])}
+    for pl in root["placements"]:
+        if pl["name"] in names and pl["start"] is not None and 0 <= pl["start"] < 10 ** 6:
+            extra.setdefault(pl["name"], []).append(pl["start"])
+    case = desugar(case, extra)
     ch = [(path, n) for path, n in leaves(case["tree"]) if n["t"] == "choose"]
+    mch = [(path, n) for path, n in leaves(case["tree"]) if n["t"] == "mchoose"]
     qty = {p["id"]: p["qty"] for p in case["parts"]}
     placed = {}
-    for pl in root["placements"]:
+    for k_, pl in enumerate(root["placements"]):
         if pl["placed"] is not True:
             probs.append("placement:not-placed-object")
+            continue
+        mc = [(path, n) for path, n in mch if n["name"] == pl["name"] and path not in placed]
+        if mc and not any(n["name"] == pl["name"] for _p, n in ch):
+            path, n = mc[0]
+            probs += _check_malleable(case, n, pl, qty)
+            cells = {}
+            for pid, t, q in pl["alloc"]:
+                cells[(pid, t)] = cells.get((pid, t), 0) + q
+            if cells:
+                placed[path] = cells
             continue
         cands = [(path, n) for path, n in ch if n["name"] == pl["name"] and n["start"] == pl["start"] and path not in placed]
         if not cands:
@@ -174,24 +297,36 @@ def check_result(case, root: dict, objective_value) -> list[str]:
             sp_ = set(sched_parts(case, m))
             return (pl["end"] == m["start"] + m["dur"]) + (amount == m["n"]) + all(pid in sp_ for pid, _t, _q in pl["alloc"])
 
-        path, n = max(cands, key=_fit)   # max keeps the first of equally good candidates
+        best = max(_fit(c) for c in cands)
+        tied = [c for c in cands if _fit(c) == best]
+        ties[k_] = len(tied)
+        path, n = tied[min(pick.get(k_, 0), len(tied) - 1)]   # default: the first of equally good candidates
         alloc = {}
         for pid, t, q in pl["alloc"]:
             if t != n["start"]:
                 probs.append("placement:allocation-time-differs-from-start")
             alloc[pid] = alloc.get(pid, 0) + q
+        kind = "wchoose" if n.get("_w") else "choose"
         if pl["end"] != n["start"] + n["dur"]:
-            probs.append("choose:wrong-duration")
+            probs.append(f"{kind}:wrong-duration")
         if sum(alloc.values()) != n["n"]:
-            probs.append("choose:wrong-amount")
+            probs.append(f"{kind}:wrong-amount")
         if not eligible(case, n):
-            probs.append("choose:placed-in-the-past-or-without-partitions")
+            probs.append(f"{kind}:placed-in-the-past-or-without-partitions")
+        if n.get("_extra"):
+            w = n["_w"]
+            if n["start"] % w["gran"] != 0:
+                probs.append("wchoose:start-off-grid")
+            elif n["start"] > w["end"]:
+                probs.append("wchoose:start-after-window-end")
+            else:
+                probs.append("wchoose:start-before-window")
         sp = sched_parts(case, n)
         for pid, q in alloc.items():
             if pid not in sp:
-                probs.append("choose:foreign-partition")
+                probs.append(f"{kind}:foreign-partition")
             elif q > qty[pid] or q < 0:
-                probs.append("choose:more-than-the-partition-holds")
+                probs.append(f"{kind}:more-than-the-partition-holds")
         placed[path] = alloc
     probs += usage_problems(case, placed)
     ev = evaluate(case, placed)
@@ -200,7 +335,68 @@ def check_result(case, root: dict, objective_value) -> list[str]:
         probs.append("utility:reported-differs-from-objective")
     if root["utility"] != ev.utility:
         probs.append("utility:reported-differs-from-schedule-utility")
-    return sorted(set(probs))
+    return sorted(set(probs)), ties
+
+
+def _check_malleable(case, n, pl, qty) -> list[str]:
+    """One placement of a MalleableChoose: n resource-time slots over the cells of its window."""
+    probs = []
+    sp = sched_parts(case, n)
+    slots = mslots(n)
+    cells = {}
+    for pid, t, q in pl["alloc"]:
+        cells[(pid, t)] = cells.get((pid, t), 0) + q
+        if t not in slots:
+            probs.append("mchoose:allocation-outside-window-or-off-grid")
+        if pid not in sp:
+            probs.append("mchoose:foreign-partition")
+        elif q > qty[pid] or q < 0:
+            probs.append("mchoose:more-than-the-partition-holds")
+    if sum(cells.values()) != n["n"]:
+        probs.append("mchoose:wrong-amount")
+    if not eligible(case, n):
+        probs.append("mchoose:placed-in-the-past-or-without-partitions")
+    if cells:
+        ts = [t for (_pid, t) in cells]
+        if pl["start"] != min(ts):
+            probs.append("mchoose:reported-start-differs-from-first-used-slot")
+        if pl["end"] != max(ts) + n["gran"]:
+            probs.append("mchoose:reported-end-differs-from-end-of-last-used-slot")
+    return probs
+
+
+def malleable_options(case, leaf) -> list[dict]:
+    """All distributions {(pid, t): q} of the leaf's n resource-time slots over its cells."""
+    sp = sched_parts(case, leaf)
+    qty = {p["id"]: p["qty"] for p in case["parts"]}
+    cells = [(pid, t) for pid in sp for t in mslots(leaf)]
+    out = []
+
+    def go(i, left, cur):
+        if i == len(cells):
+            if left == 0:
+                out.append({k: v for k, v in cur.items() if v})
+            return
+        for q in range(0, min(qty[cells[i][0]], left) + 1):
+            cur[cells[i]] = q
+            go(i + 1, left - q, cur)
+        cur.pop(cells[i], None)
+
+    go(0, leaf["n"], {})
+    return [o for o in out if o]
+
+
+def leaf_options(case, leaf) -> list[dict]:
+    if not eligible(case, leaf):
+        return []
+    return malleable_options(case, leaf) if leaf["t"] == "mchoose" else alloc_vectors(case, leaf)
+
+
+def option_cells(leaf, a):
+    """(pid, first time, end time, quantity) of an option of a Choose / MalleableChoose leaf."""
+    if leaf["t"] == "mchoose":
+        return [(pid, t, t + leaf["gran"], q) for (pid, t), q in a.items()]
+    return [(pid, leaf["start"], leaf["start"] + leaf["dur"], q) for pid, q in a.items()]
 
 
 # ---------------------------------------------------------------------------
@@ -235,17 +431,19 @@ class _Budget(Exception):
 def search_space(case) -> int:
     """Number of schedules a naive product enumeration visits."""
     space = 1
+    case = desugar(case)
     for path, n in leaves(case["tree"]):
-        if n["t"] == "choose":
-            space *= (len(alloc_vectors(case, n)) if eligible(case, n) else 0) + 1
+        if n["t"] in ("choose", "mchoose"):
+            space *= len(leaf_options(case, n)) + 1
     return space
 
 
 def sem_opt(case, limit=400000):
     """Maximum utility over all valid schedules (None when the search needs more
     than `limit` search nodes)."""
+    case = desugar(case)
     ls = leaves(case["tree"])
-    ch = [(path, n) for path, n in ls if n["t"] == "choose"]
+    ch = [(path, n) for path, n in ls if n["t"] in ("choose", "mchoose")]
     qty = {p["id"]: p["qty"] for p in case["parts"]}
     H = horizon(case)
     use = {}
@@ -259,7 +457,7 @@ def sem_opt(case, limit=400000):
     opts = []
     space = 1
     for path, n in ch:
-        o = alloc_vectors(case, n) if eligible(case, n) else []
+        o = leaf_options(case, n)
         opts.append(o)
         space *= len(o) + 1
     best = [0]
@@ -279,8 +477,9 @@ def sem_opt(case, limit=400000):
         go(i + 1)
         for a in opts[i]:
             ok = True
-            for pid, q in a.items():
-                for t in range(n["start"], n["start"] + n["dur"]):
+            cells = option_cells(n, a)
+            for pid, t0, t1, q in cells:
+                for t in range(t0, t1):
                     if use.get((pid, t), 0) + q > qty[pid]:
                         ok = False
                         break
@@ -288,14 +487,14 @@ def sem_opt(case, limit=400000):
                     break
             if not ok:
                 continue
-            for pid, q in a.items():
-                for t in range(n["start"], n["start"] + n["dur"]):
+            for pid, t0, t1, q in cells:
+                for t in range(t0, t1):
                     use[(pid, t)] = use.get((pid, t), 0) + q
             placed[path] = a
             go(i + 1)
             del placed[path]
-            for pid, q in a.items():
-                for t in range(n["start"], n["start"] + n["dur"]):
+            for pid, t0, t1, q in cells:
+                for t in range(t0, t1):
                     use[(pid, t)] -= q
 
     try:
